@@ -259,7 +259,13 @@ func (p *peer) onRequest(srv int, b []byte, from netip.AddrPort, rxReal time.Tim
 	}
 	// replies held back leave now, for the socket they were meant for
 	for _, hr := range h.held {
-		hr.conn.WriteToUDPAddrPort(hr.b, hr.to)
+		// ... unless the kernel happened to give the new socket the old port (about 1 in
+		// 28000): then it would reach the current request's socket, which is the stated
+		// boundary of fresh_socket_per_request; the network loses it instead
+		// (not when this client sends most of its requests from one port: then it is no accident)
+		if hr.to != from || (stat.portPairs >= 4 && stat.samePorts*2 > stat.portPairs) {
+			hr.conn.WriteToUDPAddrPort(hr.b, hr.to)
+		}
 	}
 	h.held = nil
 	var act action
